@@ -470,7 +470,21 @@ fn s_doc() -> proptest::strategy::SBoxedStrategy<Value> {
         ]
         .sboxed();
     }
-    level
+    // documents that *spell* a well-formed identifier without being a JSON string: its bytes / code
+    // points as an array of numbers, its characters as an array of one-character strings, the string
+    // wrapped in an array / object (a deserialiser that asks for bytes, a sequence or "any" takes them)
+    let spelled = (gen::s_langid_bytes(), 0u8..6).prop_map(|(b, k)| {
+        let t = String::from_utf8_lossy(&b).to_string();
+        match k {
+            0 => Value::Array(t.bytes().map(|c| json!(c)).collect()),
+            1 => Value::Array(t.chars().map(|c| json!(c as u32)).collect()),
+            2 => Value::Array(t.chars().map(|c| json!(c.to_string())).collect()),
+            3 => json!([t]),
+            4 => json!({ "id": t }),
+            _ => Value::Array(t.split('-').map(|c| json!(c)).collect()),
+        }
+    });
+    prop_oneof![6 => level, 1 => spelled].sboxed()
 }
 
 pub fn check_doc(doc: &Value, st: &mut Stats, mode: Count) {
@@ -547,6 +561,12 @@ fn check_primitives(st: &mut Stats) {
     prim!("unit", UnitDeserializer::<Error>::new());
     prim!("bytes", BytesDeserializer::<Error>::new(b"en"));
     prim!("seq", SeqDeserializer::<_, Error>::new(vec!["en".to_string()].into_iter()));
+    prim!("seq-of-u8", SeqDeserializer::<_, Error>::new(b"en-US".to_vec().into_iter()));
+    prim!("seq-of-char", SeqDeserializer::<_, Error>::new("en".chars()));
+    prim!("borrowed-bytes", BorrowedBytesDeserializer::<Error>::new(b"en-US"));
+    prim!("map", MapDeserializer::<_, Error>::new(vec![("en".to_string(), "US".to_string())].into_iter()));
+    prim!("u16", U16Deserializer::<Error>::new(28261));
+    prim!("i8", I8Deserializer::<Error>::new(101));
 }
 
 fn check_text(b: &[u8], st: &mut Stats) {
